@@ -44,7 +44,9 @@ let handle line =
     let ecs = next_list st (fun st -> next_list st next_str) in
     let user = next_list st next_str in
     let t = next_tree st in
-    (if root_guardb ecs user bc t then "1" else "0") ^ " " ^ (if alignedb ecs bc t then "1" else "0")
+    (if root_guardb ecs user bc t then "1" else "0")
+  | "X" -> let e = next_str st in let path = next_str st in
+    cl_hex (rstrip_slash e) ^ " " ^ (if excluded_by e path then "1" else "0")
   | "B" -> let s = next_str st in cl_hex (basename s) ^ " " ^ (if is_test_dir s then "1" else "0")
   | c -> failwith ("bad command " ^ c)
 
